@@ -12,11 +12,21 @@ CHECKS = {
   text="1 500 generated files per quick run (16x6 000 thorough) from an independent PBF encoder, neighbouring blocks deliberately differing in optional parts; every object and the header compared field for field with the format's formulas. Sampled, not exhaustive: bounded block counts (<=6) and sizes (<=9 000 elements).",
   note=PBF_NOTE,
   technique="property-based testing (rapid): independent encoder as generator, format-formula oracle, correlated 'flip' generation of neighbouring blocks"),
+ "C02": dict(
+  level="exploration",
+  text="250 generated (file, decoder count, perturbation plan) cases per quick run under the race detector; the plan delays individual blocks inside decoder callbacks, throttles the reader and the consumer and varies GOMAXPROCS, so later blocks finish before earlier ones in >50% of measured cases. Schedules are sampled, not enumerated.",
+  note=PBF_NOTE + " The OS scheduler is not controlled; the Go race detector is trusted for the executed interleavings.",
+  technique="property-based testing (rapid) of schedules: generated perturbation plans + model/snapshot oracle + Go race detector"),
  "C06": dict(
   level="fault_enumeration",
   text="Per generated file EVERY byte offset is cut and every enumerated damage class is applied at the header block and first/last data block (thorough: every block), each scan isolated in a child process with a hang watchdog; ~6 600 scans per quick run. The files themselves (10 small ones quick, 120 thorough) are sampled; thorough adds native fuzzing of the byte stream for crash/hang only.",
   note=PBF_NOTE + " A zlib bit flip counts as damage only if Go's compress/zlib rejects the stream or inflates it differently. One listed known finding (zlib stream end not verified by the czlib dependency) is excluded by construction and witnessed deterministically.",
   technique="fault enumeration driven by property-based generation (rapid): exhaustive cut points + damage-class x position matrix per file, prefix/err oracle from the model, child-process isolation; native go fuzzing as robustness supplement"),
+ "C07": dict(
+  level="exploration",
+  text="200 PBF and 1 000 XML call histories per quick run (Header, k Scans, Close / cancel from the scanning or a second goroutine, further Scan/Err/Close calls) on files of 60-500 blocks incl. endless and truncated inputs, under the race detector; oracle is a model of the statement's Err precedence, a byte bound on what the reader was asked for, goroutine-dump cleanliness and a 20 s hang watchdog. Histories and schedules are sampled.",
+  note=PBF_NOTE + " Read-ahead allowance of 3*procs+30 blocks; either error accepted after cancel+Close; nil accepted after a complete scan.",
+  technique="stateful property-based testing (rapid-generated call histories executed against a reference model) + Go race detector + goroutine-dump and byte-count observers"),
  "C08": dict(
   level="exploration",
   text="1 500 generated files x skip flags x 9 pure predicate kinds per type x decoder counts per quick run; oracle = model sequence filtered in the harness, deep snapshots at receipt vs end, what the filter saw vs what was returned, multiset of elements shown to filters. Sampled.",
